@@ -7,7 +7,7 @@ import numpy as np
 from .. import scenes, obs, oracles, pipeline, twin
 
 ID, NUM, LEVEL = 'C09', 9, 'exploration'
-RULE = ('Evaluation = one case digested in four fresh processes that differ in PYTHONHASHSEED (0, 1, 123, random), in '
+RULE = ('(Every fourth worker runs under python -O; one dense chunk of ~6 000 hits in a single group is processed from three prior global RNG states and its heights are fed to the mixture-model helper directly.) Evaluation = one case digested in four fresh processes that differ in PYTHONHASHSEED (0, 1, 123, random), in '
         'the global NumPy seed / position (incl. a cached Gaussian), in the order the cases are processed and in '
         'what ran before (other cases, the same hits with other parameter values, demo), and twice in a row inside one process: all digests (tables, '
         'per-hit data, messages; exact float bit patterns) must be equal. Every public call (run, metar_msg, demo, '
@@ -19,7 +19,7 @@ RULE = ('Evaluation = one case digested in four fresh processes that differ in P
         'distinct = hash of (rows, parameters).')
 ASSUMPTIONS = ['BLAS/OpenMP thread counts held fixed at 1 (the property excludes thread-count variation)',
                'one machine, one library build']
-REQUIRED = ['four_processes', 'hashseed_0', 'hashseed_1', 'hashseed_123', 'hashseed_random', 'reversed_order',
+REQUIRED = ['dense_chunk_gt5000_hits_in_one_group', 'four_processes', 'hashseed_0', 'hashseed_1', 'hashseed_123', 'hashseed_random', 'reversed_order',
             'in_process_repeat', 'tmp_seed_raising_body', 'cached_gaussian_prior_state', 'demo', 'direct_gmm_seed0',
             'gmm_fitted', 'same_data_other_prms_before', 'global_route_with_history']
 SIZES = {'quick': dict(groups=8, per=9), 'thorough': dict(groups=40, per=16)}
@@ -34,6 +34,8 @@ def plan(tier, seed):
             out.append({'fam': 'digest', 'g': g, 'r': r, 'per': z['per'], 's': seed, 'i': g * 4 + r})
     for j in range(4 if tier == 'quick' else 16):
         out.append({'fam': 'rng', 's': seed, 'i': 10000 + j})
+    for j in range(1 if tier == 'quick' else 4):
+        out.append({'fam': 'huge', 's': seed, 'i': 20000 + j})
     return out
 
 
@@ -278,7 +280,52 @@ def check_rng(desc):
             'viol': viol[:20], 'counters': {'rng_brackets': n, 'seed_calls_from_ampycloud': spy.calls}}
 
 
+def check_huge(desc):
+    """One very dense chunk (six instruments, ~6 000 hits in a single group - an order of magnitude above the
+    operational size: paths that depend on the NUMBER of hits) processed from different prior global states; plus
+    the mixture-model helper called directly on the 6 000 heights."""
+    from ampycloud import layer
+    viol, tags = [], set()
+    rng = scenes.rng_for(desc['s'], NUM, desc['i'])
+    nt = 1000 + int(rng.integers(0, 30))
+    base = float(rng.choice([1200.0, 4300.0]))
+    rows = [['c%d' % ci, -0.9 * t - 0.1 * ci, float(np.round(base + 80.0 * np.sin(t / 97.0) + rng.normal(0, 30.0), 1)), 1]
+            for ci in range(6) for t in range(nt)]
+    sc = {'rows': scenes.dedupe(rows), 'names': ['c%d' % ci for ci in range(6)], 'order': 'none', 'fam': 'huge'}
+    df = scenes.frame(sc)
+    prm = {'call': {'MSA': None, 'LAYERING_PRMS': {'min_okta_to_split': 0}}, 'glob': {}}
+    digs = []
+    n = 0
+    with SeedSpy() as spy, warnings.catch_warnings():
+        warnings.simplefilter('ignore')
+        for prior in (1, 2, 0):
+            set_prior(rng, prior)
+            ch = bracket(lambda: obs.run(df, prm), viol, 'run() on a 6000-hit chunk', prior=prior)
+            digs.append(obs.ohash(obs.observe(ch)))
+            n += 1
+        if len(set(digs)) != 1:
+            oracles.V(viol, 'C09', 'result of a dense chunk depends on the prior global random state', n_hits=len(df), digests=digs)
+        vals = df['height'].to_numpy()
+        outs = []
+        for prior in (1, 2):
+            set_prior(rng, prior)
+            res = bracket(lambda: layer.ncomp_from_gmm(vals.copy(), min_sep=100), viol, 'ncomp_from_gmm() on 6000 values', prior=prior)
+            outs.append((int(res[0]), np.asarray(res[1]).tolist(), np.asarray(res[2]).tolist()))
+            n += 1
+        if outs[0] != outs[1]:
+            oracles.V(viol, 'C09', 'ncomp_from_gmm result depends on the prior global random state', n_values=len(vals))
+    for b in spy.bad:
+        oracles.V(viol, 'C09', 'global NumPy generator seeded / restored outside the temporary-seed helper', where=b)
+    if ch.n_groups >= 1 and int(ch.data['group_id'].value_counts().iloc[0]) > 5000:
+        tags.add('dense_chunk_gt5000_hits_in_one_group')
+    return {'evals': n, 'nontrivial': [obs.case_hash('huge', desc['i'], j) for j in range(n)], 'tags': sorted(tags),
+            'viol': viol[:20], 'counters': {'rng_brackets': n, 'seed_calls_from_ampycloud': spy.calls},
+            'sample': {'workload': 'dense chunk', 'n_hits': len(df), 'msg': ch.metar_msg()}}
+
+
 def check(desc):
+    if desc['fam'] == 'huge':
+        return check_huge(desc)
     return check_digest(desc) if desc['fam'] == 'digest' else check_rng(desc)
 
 
